@@ -3,15 +3,13 @@
 //! Read the `windows` module for reference.
 
 use std::ffi::c_int;
-use std::io::{self, Write};
+use std::io::{self, BufRead, Write};
 use std::ptr::{self, NonNull, null_mut};
-use std::slice;
 
 use memchr_rs::memchr;
 
 use super::{ProcessRunner, Stdin, VirtualMemory, process_common};
 use crate::arena::{Arena, ArenaString};
-use crate::helpers::KIBI;
 use crate::process::{ProcessCaps, ProcessError, ProcessResult, ProcessSpec};
 use crate::runtime::Value;
 
@@ -83,46 +81,36 @@ impl Stdin for UnixStdin {
         print!("{prompt}");
         io::stdout().flush()?;
 
-        let mut cap = 8 * KIBI;
-        let mut buf = ArenaString::with_capacity_in(cap, arena);
-        let mut len = 0;
+        // Read through std's shared, buffered stdin: whatever follows the newline in the
+        // chunk the kernel handed us stays buffered for the next call, and a line of any
+        // length simply spans several refills.
+        let mut stdin = io::stdin().lock();
+        let mut line = Vec::new_in(arena);
 
         loop {
-            if len == cap {
-                cap *= 2;
-                buf.reserve_exact(cap - buf.capacity());
-            }
-
-            let count = cap - len;
-            let base = buf.as_ptr();
-
-            let n = unsafe {
-                libc::read(libc::STDIN_FILENO, base.add(len) as *mut libc::c_void, count)
+            let available = match stdin.fill_buf() {
+                Ok(available) => available,
+                Err(err) if err.kind() == io::ErrorKind::Interrupted => continue,
+                Err(err) => return Err(err),
             };
-            if n < 0 {
-                return Err(io::Error::last_os_error());
-            }
-            if n == 0 {
+            if available.is_empty() {
                 // EOF
                 break;
             }
-            let n = n.cast_unsigned();
 
-            len += n;
-
-            let hay = unsafe { slice::from_raw_parts(base, len) };
-            let index = memchr(b'\n', hay, len - n);
-            if index < len {
-                len = index;
+            let index = memchr(b'\n', available, 0);
+            if index < available.len() {
+                line.extend_from_slice(&available[..index]);
+                stdin.consume(index + 1);
                 break;
             }
+
+            line.extend_from_slice(available);
+            let consumed = available.len();
+            stdin.consume(consumed);
         }
 
-        unsafe {
-            buf.as_mut_vec().set_len(len);
-        }
-
-        Ok(buf)
+        Ok(ArenaString::from_utf8_lossy_owned(line))
     }
 }
 
